@@ -220,8 +220,12 @@ def gen_param(rng, name, cls):
         return -1 if name in ("delta", "lmbda", "rate") else 1
     if r < 0.27:
         return 0
-    if r < 0.6:
+    if r < 0.55:
         return round(rng.uniform(0.1, 2.0), 7)
+    if r < 0.68:
+        # small and large magnitudes: the printed factor (six significant digits, exponent notation) must still
+        # describe the rate
+        return rng.choice([1.234567e-3, 1.75e-5, 2.5e-7, 3.3e-4, 0.0123456789, 1234.5678, 2.5e6])
     return rng.choice([0.5, 0.25, 1.5, 0.7, 0.1, 2.0, 0.3])
 
 
@@ -1162,6 +1166,24 @@ def judge(ctx, c, rs, rj, sl, answers):
     ctx.count(case, nontrivial=nontrivial, leg=leg)
 
 
+def text_factor_problem(ast, want):
+    """property level: the numbers the text advertises must be the class's factors to the six significant digits
+    `expr_prod` prints - judged term by term, because a small factor is invisible in the total rate.
+    Returns (description or None, expected factors)"""
+    from fractions import Fraction
+    got = [Fraction(n["v"]) for n in X.walk(ast) if n["k"] == "num"]
+    exp = [Fraction(n["v"]) for n in X.walk(want) if n["k"] == "num"]
+    bad = None
+    if len(got) != len(exp):
+        bad = f"{len(got)} numeric factors printed, {len(exp)} expected (a term vanished or appeared)"
+    else:
+        for g_, e_ in zip(got, exp):
+            if abs(g_ - e_) > Fraction(1, 10 ** 5) * abs(e_):
+                bad = f"printed factor {float(g_)!r} instead of {float(e_)!r}"
+                break
+    return bad, [float(e_) for e_ in exp]
+
+
 def judge_text(ctx, c, rs, rj, sl, answers, case, model):
     """leg B, correspondence part: the advertised text has the AST of the model's template, and `PDE(text)` computes
     the field semantics (`rhsValue`) of that text.  (The monitor class-vs-PDE(text) is in `monitor_checks`.)"""
@@ -1188,6 +1210,13 @@ def judge_text(ctx, c, rs, rj, sl, answers, case, model):
         if asts[v] != want[v]:
             ctx.disagree("B-template", dict(case, var=v, text=rs["texts"][v]), want[v], asts[v],
                          "the advertised text does not have the AST of the class's template")
+            bad, exp = text_factor_problem(asts[v], want[v])
+            ctx.monitor_evals += 1
+            if bad:
+                ctx.monitor_fail("B", dict(strip_case(c), var=v, text=rs["texts"][v]), rs["texts"][v],
+                                 {"factors_to_six_digits": exp},
+                                 "the advertised expression text does not describe the class rate: " + bad,
+                                 key={"what": "text-factor", "class": cls})
     ctx.hist("text_shape", cls + ":" + form + ":" + "|".join(sorted(str(X.size(a)) for a in asts.values())))
     # 2. field semantics of the text (model) vs PDE(text) (real code), sharp
     sem = {}
@@ -1261,6 +1290,25 @@ def replay(ctx, rep):
         if isinstance(r, str):
             print(f"worker failed ({tag}): {r}")
             return False
+    if what == "text-factor":
+        # the advertised text against the model's template of the class (numbers to six significant digits)
+        from harness.common.lean import LeanBatch
+        b = LeanBatch(ctx.workdir)
+        i = b.add("c10.template", template_request(c, rs))
+        st, tmpl = b.run()[i]
+        if st != "ok":
+            print("model driver error (template):", tmpl)
+            return False
+        asts = read_class_texts(c["cls"], rs["texts"])
+        if c["cls"] in GROUPED:
+            tmpl = tmpl[text_form(asts["c"])]
+        want = {"c": tmpl} if len(CLASSES[c["cls"]]["fields"]) == 1 else tmpl
+        ok = True
+        for v in asts:
+            bad, exp = text_factor_problem(asts[v], want[v])
+            print(f"text of {v}: {rs['texts'][v]!r}: {'FAILS: ' + bad if bad else 'ok'}")
+            ok = ok and not bad
+        return ok
     checks = monitor_checks(c, rs, rj)
     if what is None:
         print("the file records no symptom (key.what): judging every monitor of the case")
